@@ -642,9 +642,12 @@ func resolveRealm(c *engine.Ctx, evals *int64) {
 				lines = append(lines, " "+k+" = "+realm)
 			}
 		}
-		cfg, err, pn := load("[domain_realm]\n" + strings.Join(lines, "\n") + "\n")
+		// the section header in the shapes the other sections are tried in (indented, trailing blanks, after other sections)
+		hdrs := []string{"[domain_realm]\n", "  [domain_realm]  \n", "\t[domain_realm]\n", "[libdefaults]\n default_realm = DEF.REALM\n\n [domain_realm]\n", "# comment\n[realms]\n DEF.REALM = {\n  kdc = k.def.realm\n }\n   [domain_realm]\t\n"}
+		hdr := hdrs[mask%len(hdrs)]
+		cfg, err, pn := load(hdr + strings.Join(lines, "\n") + "\n")
 		if pn != "" || err != nil {
-			c.Violate("resolve", "resolve:load", map[string]interface{}{"panic": pn, "err": fmt.Sprint(err)}, map[string]interface{}{"mappings": m})
+			c.Violate("resolve", "resolve:load", map[string]interface{}{"panic": pn, "err": fmt.Sprint(err)}, map[string]interface{}{"mappings": m, "header": hdr})
 			continue
 		}
 		for _, h := range hosts {
